@@ -89,19 +89,22 @@ Definition held_emitted (a : asys) : Prop :=
 Lemma held_emitted_init : held_emitted a_init.
 Proof. intros j id H. simpl in H. congruence. Qed.
 
+Lemma st_eq_dec (x y : st) : x = y \/ x <> y.
+Proof.
+  destruct x as [|x1 y1| |], y as [|x2 y2| |]; try (now left); try (right; discriminate).
+  destruct (Nat.eq_dec x1 x2) as [->|]; [destruct (Nat.eq_dec y1 y2) as [->|]|]; [now left| |]; right; congruence.
+Qed.
+
 Lemma held_emitted_step a b : astep a b -> held_emitted a -> held_emitted b.
 Proof.
-  intros Hs Hinv. destruct Hs as [i a new ids Hmono Hann | j a m Hsub]; intros k id Hne; simpl in *.
-  - destruct (Nat.eqb_spec k i) as [->|Hki].
-    + assert (Hdec : new id = a_status a i id \/ new id <> a_status a i id).
-      { destruct (new id) as [|x1 y1| |], (a_status a i id) as [|x2 y2| |]; try (now left); try (right; discriminate).
-        destruct (Nat.eq_dec x1 x2) as [->|]; [destruct (Nat.eq_dec y1 y2) as [->|]|]; [now left| |]; right; congruence. }
-      destruct Hdec as [Heq|Hneq].
+  intros Hs Hinv. destruct Hs as [i a b extra Hmono Hoth Hann Hem | j a b m Hsub Hj Hoth Hem]; intros k id Hne.
+  - rewrite Hem. destruct (Nat.eq_dec k i) as [->|Hki].
+    + destruct (st_eq_dec (a_status b i id) (a_status a i id)) as [Heq|Hneq].
       * destruct (Hinv i id) as [i0 Hi0]; [congruence|]. exists i0. apply in_or_app. left. now rewrite Heq.
-      * exists i. apply in_or_app. right. apply in_map_iff. exists id. split; [reflexivity|now apply Hann].
-    + destruct (Hinv k id Hne) as [i0 Hi0]. exists i0. apply in_or_app. now left.
-  - destruct (Nat.eqb_spec k j) as [->|Hkj]; [|now apply Hinv].
-    destruct (join_facts_origin id m (a_status a j id)) as [Heq|[f [Hf [Hfi Hfs]]]].
+      * exists i. apply in_or_app. right. now apply Hann.
+    + rewrite (Hoth k id Hki) in *. destruct (Hinv k id Hne) as [i0 Hi0]. exists i0. apply in_or_app. now left.
+  - rewrite Hem. destruct (Nat.eq_dec k j) as [->|Hkj]; [|rewrite (Hoth k id Hkj) in *; now apply Hinv].
+    rewrite Hj in *. destruct (join_facts_origin id m (a_status a j id)) as [Heq|[f [Hf [Hfi Hfs]]]].
     + rewrite Heq in *. now apply Hinv.
     + exists (fst (fst f)). rewrite <- Hfs, <- Hfi. destruct f as [[i0 id0] s0]. simpl. now apply Hsub.
 Qed.
@@ -112,9 +115,9 @@ Proof. induction 1 as [a|a b c _ IH Hs]; auto. intro Hi. eapply held_emitted_ste
 (* ---------- statuses only grow ---------- *)
 Lemma astep_monotone a b : astep a b -> forall j id, st_le (a_status a j id) (a_status b j id) = true.
 Proof.
-  intros Hs j id. destruct Hs as [i a new ids Hmono Hann | k a m Hsub]; simpl.
-  - destruct (Nat.eqb j i) eqn:E; [apply Nat.eqb_eq in E; subst; apply Hmono|apply st_le_refl].
-  - destruct (Nat.eqb j k); [apply join_facts_ge|apply st_le_refl].
+  intros Hs k id. destruct Hs as [i a b extra Hmono Hoth Hann Hem | j a b m Hsub Hj Hoth Hem].
+  - destruct (Nat.eq_dec k i) as [->|Hki]; [apply Hmono|rewrite (Hoth k id Hki); apply st_le_refl].
+  - destruct (Nat.eq_dec k j) as [->|Hkj]; [rewrite Hj; apply join_facts_ge|rewrite (Hoth k id Hkj); apply st_le_refl].
 Qed.
 
 Lemma asteps_monotone a b : asteps a b -> forall j id, st_le (a_status a j id) (a_status b j id) = true.
